@@ -231,6 +231,13 @@ def handle (line : String) : List String :=
     [s!"F ok {if bs.isEmpty then "-" else hexOfBytes bs}"]
   | ["CACHE", names] =>
     (Cache.run (Cache.init Generated.cacheCapacity) (names.splitOn ",")).map fun p => s!"C {p.1} {p.2}"
+  | ["RCD", xs] =>
+    match xs.toNat? with
+    | some x =>
+      (match rcRowDetails Generated.rcTables x with
+       | some ds => (ds.mergeSort (fun a b => a.1 ≤ b.1)).map fun d => s!"D {d.1} {d.2}"
+       | none => ["D crash KeyError"])
+    | none => ["X bad-rcd-op"]
   | ["BITS", pn, xs] =>
     match findPrim pn, xs.toNat? with
     | some p, some x => bitLines p x
